@@ -563,14 +563,24 @@ func (fx *FuncExec) evalBuiltin(st *State, call *ast.CallExpr, name string) []Te
 			}
 			a := fx.sliceContents(st, s, comp, es)
 			b := fx.sliceContents(st, t, comp, es)
+			// Go appends in place when the capacity allows (capacity is not modelled:
+			// any append to a non-nil slice may be in place) and reallocates otherwise.
+			inpl := fx.fresh("inplace", "Bool")
+			cond := and(inpl, not(eq("(sref "+s.S+")", "null_SRef")))
+			oldArr := sel(fx.H(st, comp), "(sref "+s.S+")")
 			ref := fx.alloc(st, "SRef", "append")
 			na := fx.fresh("apparr", "(Array Int "+es+")")
 			fx.nq++
 			i := fmt.Sprintf("i!a%d", fx.nq)
 			st.assume(fmt.Sprintf("(forall ((%s Int)) (! (and (=> (and (<= 0 %s) (< %s (slen %s))) (= (select %s %s) (select %s %s))) (=> (and (<= (slen %s) %s) (< %s (+ (slen %s) (slen %s)))) (= (select %s %s) (select %s (- %s (slen %s)))))) :pattern ((select %s %s))))",
 				i, i, i, s.S, na, i, a, i, s.S, i, i, s.S, t.S, na, i, b, i, s.S, na, i))
-			fx.setHq(st, comp, store(fx.H(st, comp), ref, na))
-			return []Term{{S: "(mk_slice " + ref + " 0 (+ (slen " + s.S + ") (slen " + t.S + ")))", Sort: "Slice", T: stype}}
+			ni := fx.fresh("apparr_inplace", "(Array Int "+es+")")
+			base := "(+ (soff " + s.S + ") (slen " + s.S + "))"
+			st.assume(fmt.Sprintf("(forall ((%s Int)) (! (= (select %s %s) (ite (and (<= %s %s) (< %s (+ %s (slen %s)))) (select %s (- %s %s)) (select %s %s))) :pattern ((select %s %s))))",
+				i, ni, i, base, i, i, base, t.S, b, i, base, oldArr, i, ni, i))
+			fx.setHq(st, comp, ite(cond, store(fx.H(st, comp), "(sref "+s.S+")", ni), store(fx.H(st, comp), ref, na)))
+			n := "(+ (slen " + s.S + ") (slen " + t.S + "))"
+			return []Term{{S: ite(cond, "(mk_slice (sref "+s.S+") (soff "+s.S+") "+n+")", "(mk_slice "+ref+" 0 "+n+")"), Sort: "Slice", T: stype}}
 		}
 		var vals []Term
 		for _, a := range call.Args[1:] {
@@ -581,12 +591,17 @@ func (fx *FuncExec) evalBuiltin(st *State, call *ast.CallExpr, name string) []Te
 			vals = append(vals, v)
 		}
 		arr := fx.sliceContents(st, s, comp, es)
+		inpl := fx.fresh("inplace", "Bool")
+		cond := and(inpl, not(eq("(sref "+s.S+")", "null_SRef")))
+		arrIn := sel(fx.H(st, comp), "(sref "+s.S+")")
 		ref := fx.alloc(st, "SRef", "append")
 		for i, v := range vals {
 			arr = store(arr, fmt.Sprintf("(+ (slen %s) %d)", s.S, i), v.S)
+			arrIn = store(arrIn, fmt.Sprintf("(+ (+ (soff %s) (slen %s)) %d)", s.S, s.S, i), v.S)
 		}
-		fx.setHq(st, comp, store(fx.H(st, comp), ref, arr))
-		return []Term{{S: fmt.Sprintf("(mk_slice %s 0 (+ (slen %s) %d))", ref, s.S, len(vals)), Sort: "Slice", T: stype}}
+		fx.setHq(st, comp, ite(cond, store(fx.H(st, comp), "(sref "+s.S+")", arrIn), store(fx.H(st, comp), ref, arr)))
+		n := fmt.Sprintf("(+ (slen %s) %d)", s.S, len(vals))
+		return []Term{{S: ite(cond, "(mk_slice (sref "+s.S+") (soff "+s.S+") "+n+")", "(mk_slice "+ref+" 0 "+n+")"), Sort: "Slice", T: stype}}
 	case "copy":
 		dt := fx.typeOf(call.Args[0])
 		u := dt.Underlying().(*types.Slice)
